@@ -21,6 +21,8 @@ type OutsideAtom struct {
 	// Light: a reduced set of host positions and arguments (quick tier of the generated families,
 	// where the family's own dimension matters more than the position)
 	Light bool
+	// Imports: further import paths the atom's code uses (standard library)
+	Imports []string
 }
 
 var lightPositions = map[string]bool{"first": true, "inloop": true, "inclosure": true, "aftereturnif": true, "elseifarm": true}
@@ -315,7 +317,11 @@ func AtomPackageVariant(prefix string, a OutsideAtom, rng interface{ Intn(int) i
 	if rng != nil {
 		name = fmt.Sprintf("%s%s_v%d", prefix, a.ID, variant)
 	}
-	fmt.Fprintf(&b, "package %s\n\nimport (\n\t\"sync\"\n\n\t\"github.com/goose-lang/goose/machine\"\n)\n\n", name)
+	std := ""
+	for _, imp := range a.Imports {
+		std += "\t\"" + imp + "\"\n"
+	}
+	fmt.Fprintf(&b, "package %s\n\nimport (\n%s\t\"sync\"\n\n\t\"github.com/goose-lang/goose/machine\"\n)\n\n", name, std)
 	var cases []string
 	args := []uint64{0, 3, 8, 255, 4294967296, 18446744073709551615}
 	if a.Light {
@@ -465,4 +471,8 @@ var InsideAtoms = []OutsideAtom{
 	{ID: "method_value_valrecv", Kind: "stmt", Code: "h3 := H{f: x, g: 2}\n\tgv := h3.sumWith\n\tx = gv(1)"},
 	{ID: "local_shadows_global", Kind: "stmt", Code: "Limit := x + 1\n\tvar Factor uint64 = 2\n\tx = Limit*Factor + globalUser(1)"},
 	{ID: "param_named_like_global", Kind: "stmt", Code: "x = shadowParam(x, 3) + Limit"},
+}
+
+func init() {
+	InsideAtoms = append(InsideAtoms, BlockBinderAtoms()...)
 }
